@@ -15,15 +15,24 @@ def build():
     common.metadata_core(u)
     common.status_decls(u)
     u._emit('impl Code {'); u._open_header = 'impl Code {'
-    u.fn(S, 'from_i32', within='impl Code', nth=0, ensures=[Clause('T_from_i32_is_the_table', 'r == code_of_num(i as int)')])
-    u.fn(S, 'parse_err', within='impl Code', ensures=[Clause('unknown', 'r == Code::Unknown')])
-    u.fn(S, 'from_bytes', within='impl Code', ensures=[Clause('T_from_bytes_total_unknown_otherwise', 'r == code_of_bytes(bytes@)')])
+    u.fn(S, 'from_i32', within='impl Code', nth=0, ensures=[Clause('T_from_i32_is_the_table', 'r == code_of_num(i as int)', ['C04', 'C02'])])
+    u.fn(S, 'parse_err', within='impl Code', ensures=[Clause('unknown', 'r == Code::Unknown', ['C04', 'C02'])])
+    u.fn(S, 'from_bytes', within='impl Code', # callees of from_header_map: they count for what its clause counts for
+         ensures=[Clause('T_from_bytes_total_unknown_otherwise', 'r == code_of_bytes(bytes@)', ['C04', 'C02'])])
     u.fn(S, 'to_header_value', within='impl Code',
          body_start='        proof { reveal_strlit("0"); reveal_strlit("1"); reveal_strlit("2"); reveal_strlit("3"); reveal_strlit("4"); reveal_strlit("5"); reveal_strlit("6"); reveal_strlit("7"); reveal_strlit("8"); reveal_strlit("9"); reveal_strlit("10"); reveal_strlit("11"); reveal_strlit("12"); reveal_strlit("13"); reveal_strlit("14"); reveal_strlit("15"); reveal_strlit("16"); }',
-         ensures=[Clause('T_to_header_value_is_decimal_code', 'r@ =~= dec_text(code_num(self))')])
+         # a callee of add_header: its clause counts for every property that add_header's clauses count for
+         ensures=[Clause('T_to_header_value_is_decimal_code', 'r@ =~= dec_text(code_num(self))', ['C04', 'C02', 'C03', 'C08', 'C12'])])
     u.close('}')
     u.fn(S, 'invalid_header_value_byte', sig_edits=[lambda t: t.sub_code('R12', r'<Error: fmt::Display>', '<Error>')],
          ensures=[Clause('internal', 'r.code == Code::Internal')])
+    u.raw('''// A-core-44: str::trim is the text without its leading and trailing (Unicode) white space; str::is_empty
+pub uninterp spec fn is_ws(c: char) -> bool;
+pub assume_specification[ str::trim ](s: &str) -> (r: &str)
+    ensures
+        exists|i: int, j: int| 0 <= i <= j <= s@.len() && #[trigger] s@.subrange(i, j) == r@
+            && (forall|k: int| 0 <= k < i ==> is_ws(s@[k])) && (forall|k: int| j <= k < s@.len() ==> is_ws(s@[k])),
+        r@.len() > 0 ==> !is_ws(r@[0]) && !is_ws(r@.last());''')
     u.raw('// A-bytes-33: &Bytes derefs to the byte slice it holds (R17: the coercion in `&self.details` is spelled as a call)\n#[verifier::external_body]\npub fn verif_bytes_deref(b: &Bytes) -> (r: &[u8]) ensures r@ == b@ { unimplemented!() }')
     u._emit('impl Status {'); u._open_header = 'impl Status {'
     for cname, variant in common.CTORS:
@@ -32,8 +41,8 @@ def build():
     u.fn(S, 'with_details_and_metadata', within='impl Status', ensures=[Clause('fields', 'r.code == code && r.details == details && r.metadata == metadata', ['C04', 'C20'])])
     u.fn(S, 'with_details', within='impl Status', ensures=[Clause('fields', 'r.code == code && r.details == details && r.metadata.headers@ == Map::<Seq<char>, Seq<Seq<u8>>>::empty()')])
     u.fn(S, 'with_metadata', within='impl Status', ensures=[Clause('fields', 'r.code == code && r.details@.len() == 0 && r.metadata == metadata')])
-    u.fn(S, 'code', within='impl Status', nth=0, ensures=[Clause('get', 'r == self.code')])
-    u.fn(S, 'message', within='impl Status', nth=0, ensures=[Clause('get', 'r@ == self.message@')])
+    u.fn(S, 'code', within='impl Status', nth=0, ensures=[Clause('get', 'r == self.code', ['C04', 'C02'])])
+    u.fn(S, 'message', within='impl Status', nth=0, ensures=[Clause('get', 'r@ == self.message@', ['C04', 'C02', 'C03', 'C08', 'C12'])])   # callee of add_header
     u.fn(S, 'metadata', within='impl Status', nth=0, ensures=[Clause('get', '*r == self.metadata')])
     u.fn(S, 'details', within='impl Status', nth=0, body_edits=[lambda t: t.sub_code('R17', r'&self\.details', 'verif_bytes_deref(&self.details)')], ensures=[Clause('get_the_details_bytes', 'r@ == self.details@', ['C04', 'C20'])])
     u.fn(S, 'metadata_mut', within='impl Status', nth=0, ensures=[Clause('get_mut', '*r == old(self).metadata && *final(r) == final(self).metadata && final(self).code == old(self).code && final(self).details == old(self).details')])
